@@ -56,6 +56,7 @@ type Prog struct {
 	e1    *e1Result
 	e3    *e3Result
 	e3b   *[]E3bIssue
+	wrapped     map[*ssa.Function]bool // function literals run at once by a lock-wrapper helper
 	propReports map[string]*Report
 	importing   bool
 	onceBody map[*ssa.Function]*ssa.Function
